@@ -227,6 +227,28 @@ pub fn generate_leaf_table(emit: &mut dyn FnMut(String)) {
 				cases.push((sch.clone(), SV::Seq(Some(l), es)));
 			}
 		}
+		// each integer width has its own conversion to a byte
+		if *size > 0 {
+			let bs: Vec<u8> = (0..*size).map(|k| 0x61 + k as u8).collect();
+			for t in IntTy::ALL.iter().copied() {
+				for val in [0i128, 200, 255, 256, -1, -128] {
+					let b = BigI::from_i128(val);
+					if b.fits(t) {
+						let mut es = u8s(&bs);
+						es[*size - 1] = SV::Int(t, b.clone());
+						cases.push((sch.clone(), SV::Seq(Some(*size), es.clone())));
+						if val == 256 || val == -1 {
+							cases.push((sch.clone(), SV::Tuple(es)));
+						}
+					}
+				}
+			}
+			for other in [SV::Bool(true), SV::F32(1.0f32.to_bits()), SV::F64(1.0f64.to_bits()), SV::Char('a'), SV::Bytes(vec![1]), SV::Unit, SV::None, SV::Seq(Some(1), u8s(&[1]))] {
+				let mut es = u8s(&bs);
+				es[0] = other;
+				cases.push((sch.clone(), SV::Seq(Some(*size), es)));
+			}
+		}
 		cases.push((sch.clone(), SV::Bytes(vec![0xff, 0xfe, 0x00][..(*size).min(3)].to_vec())));
 		cases.push((sch.clone(), SV::Char('a')));
 		cases.push((sch.clone(), SV::Char('é')));
@@ -273,6 +295,18 @@ pub fn generate_leaf_table(emit: &mut dyn FnMut(String)) {
 			w[1].0 = "Months".into();
 			cases.push((dur.clone(), SV::Struct("Duration".into(), w.clone())));
 			cases.push((dur.clone(), SV::Map(Some(3), w.iter().map(|(k, x)| (SV::Str(k.clone()), x.clone())).collect(), true)));
+		}
+	}
+	for adv in [Some(2), Some(4), Some(0)] {
+		for n in [2usize, 3, 4] {
+			cases.push((dur.clone(), SV::Seq(adv, (0..n).map(|k| u(IntTy::U32, k as u128)).collect())));
+		}
+	}
+	// floats a decimal cannot hold
+	for node in [nd(Reg::Bytes, Some(Logical::Decimal(2, 6))), nd(Reg::Fixed("F".into(), 2), Some(Logical::Decimal(1, 4))), nd(Reg::Bytes, Some(Logical::BigDecimal))] {
+		for f in [f64::NAN, f64::INFINITY, f64::NEG_INFINITY, 1e30, -1e30, 1e-30, 0.0, -0.0, 327.67, 327.68, 1.25] {
+			cases.push((vec![node.clone()], SV::F64(f.to_bits())));
+			cases.push((vec![node.clone()], SV::F32((f as f32).to_bits())));
 		}
 	}
 	// members out of range or of another type
